@@ -328,6 +328,22 @@ func runExec(args []string) {
 		}
 		return " ev=" + r.ev
 	}
+	// kp=<p1>,<p2>,...: the stripe position (Locks.GetKeyPos) of every argument after the command name, index-aligned with argv[1:]
+	// (any of them may be a key); shipped with the event trace so that the driver can compare the locked stripes with the
+	// stripes of the model footprint's keys
+	kpField := func(mgr *server.Manager, argv [][]byte) string {
+		if !recorder.pass {
+			return ""
+		}
+		if len(argv) < 2 {
+			return " kp=-"
+		}
+		parts := make([]string, 0, len(argv)-1)
+		for _, a := range argv[1:] {
+			parts = append(parts, strconv.Itoa(mgr.CurrentDB.VerifLockPos(string(a))))
+		}
+		return " kp=" + strings.Join(parts, ",")
+	}
 	for in.Scan() {
 		line := in.Text()
 		f := strings.Fields(line)
@@ -389,7 +405,7 @@ func runExec(args []string) {
 				out.Flush()
 				continue
 			}
-			fmt.Fprintf(out, "%s => %d %d %s %s %s %s%s\n", line, r.t0, r.t1, r.reply, dumpKeys(mgr, f[1]), floatAnn(argv), r.rf, evField(r))
+			fmt.Fprintf(out, "%s => %d %d %s %s %s %s%s%s\n", line, r.t0, r.t1, r.reply, dumpKeys(mgr, f[1]), floatAnn(argv), r.rf, evField(r), kpField(mgr, argv))
 		case "G", "L", "LB":
 			// keyspace snapshot (C08):
 			//   G            => <t0> <t1> <hex of MemDb.GetSnapshot()>
